@@ -25,6 +25,21 @@ CLAIMED = {
    note="Translator harness/extract.py trusted to print what the live functions return (purity smoke-checked by evaluating twice in opposite orders); ids also exercised through the real reactors' dicts. 9 known collisions on supported snapshot versions are listed in known_findings.json.",
    technique="total tabulation by translator + Lean 4 kernel decision (decide +kernel) + generic Lean proof",
    design="5/C06"),
+ 'C09': dict(
+   text="Lean model of constructor resolution, connect plan, status evaluation, mismatch message and the plain status reactor; theorems for ALL environments, allowed sets, defaults and replies: connect v only for an allowed reported v or the default on {no version, no protocol key, closed}; disallowed n gives a mismatch naming n with the supported flag correct; empty object invalid; single allowed version => no query; unsupported/unknown refused at construction; handshake fields; status handler exactly once, ping iff requested, latency >= 0 on a monotone clock, one disconnect, exit callback once. Correspondence on the sequential simnet against an independent stand-in server (constructor inputs, negotiation scenarios over the live version tables, four status handler modes).",
+   note="Non-integer protocol values in the reply are outside the property's quantifier (the model returns what Python does for integers only). Clock values are injected; JSON parsing is CPython's. simnet's socket semantics are part of the trusted base.",
+   technique="Lean 4 proof (decision logic, case analysis) + correspondence on an in-process sequential network",
+   design="5/C09"),
+ 'C13': dict(
+   text="Lean model of the four listener lists, call_packet (first matching type, callback once), _react and _write_packet; theorems for ALL hierarchies (cyclic or not), configurations and histories: call log = early matches ++ reaction ++ ordinary matches in registration order cut after the first ignore; exactly-once; ignore is local to the packet; early ignore suppresses reaction; outgoing early before the write and able to suppress it, ordinary after; the four-way registration target. Correspondence on the sequential simnet: random listener configurations over the real packet class hierarchy, login and play histories, client-written packets.",
+   note="The built-in reaction is observed by wrapping (not replacing) the reactors' react methods; a non-IgnorePacket exception in a listener belongs to C14.",
+   technique="Lean 4 proof (list folds vs filter/takeWhile specification) + correspondence on sequential simnet",
+   design="5/C13"),
+ 'C14': dict(
+   text="Lean model of _handle_exception as the literal for/else loop, proved equal to an independently defined nested try/except chain for ALL handler chains; first matching handler receives; a raising handler's exception is offered to later handlers only; final handler runs exactly once, last (unless the reactor's own handler swallowed the exception); recorded = last exception; re-raised iff nothing caught and final is None. Correspondence on the sequential simnet with fault injection at 7 origins x random chains x 4 final modes, plus teardown and reconnect checks.",
+   note="When the reactor's own handler returns True (status EOF fallback) the code returns before the final handler and records nothing; the theorems state this side condition explicitly. BaseException from handlers is outside the model.",
+   technique="Lean 4 proof (loop = recursive try/except reference) + fault-injection correspondence on sequential simnet",
+   design="5/C14"),
  'C15': dict(
    text="Lean theorems for every packet list, every cut offset k and every segmentation of the first k bytes (also through any cipher pair): the reader delivers exactly the packets whose frames lie wholly inside the prefix and then fails with end-of-stream, never a partial packet; at most 2 reads are issued after the stream is exhausted (1 except right after a bare length prefix); total reads <= bytes+2; termination by construction (total functions, fuel never the stopping reason). Correspondence/fault enumeration: real read_packet on streams cut at EVERY offset x 3 segmentations under a read budget.",
    note="A peer that stalls without closing (blocking read) is OS behaviour outside the model. The planned bound of 1 read after EOF is false for the literal code (length prefix then EOF gives 2); proved as <= 2 with a _partial refinement.",
